@@ -12,6 +12,7 @@ import OtpVerif.Std.Sha
 import OtpVerif.Model.Ocra
 import OtpVerif.Model.Utils
 import OtpVerif.Model.Url
+import OtpVerif.Model.Rest
 import OtpVerif.Spec.All
 
 open OtpVerif OtpVerif.Model
@@ -123,6 +124,73 @@ def showCfg (c : SuiteConfig) : String :=
 
 def showInput (i : OCRAInput) : String :=
   s!"{hex i.counter}:{hex i.challenge}:{hex i.password}:{hex i.session}:{hex i.timestamp}"
+
+namespace RestDrv
+open OtpVerif.Model.Rest
+
+def parseSuiteReq (s : String) : Option (Option SuiteReq) :=
+  if s = "-" then some none
+  else match s.splitOn ":" with
+    | ["S", h, d, ch, fl, pw, ts] =>
+      match unhex h, d.toInt?, ch.toInt?, fl.toList, pw.toInt?, ts.toInt? with
+      | some h, some d, some ch, [c, q, p, s, t], some pw, some ts =>
+        some (some { hashFunction := h, codeDigits := d, challengeFormat := ch, c := c == '1', q := q == '1', p := p == '1',
+                     s := s == '1', t := t == '1', passwordHash := pw, timestep := ts })
+      | _, _, _, _, _, _ => none
+    | _ => none
+
+def parseInputReq (s : String) : Option (Option InputReq) :=
+  if s = "-" then some none
+  else match s.splitOn ":" with
+    | ["I", a, b, c, d, e] =>
+      match unhex a, unhex b, unhex c, unhex d, unhex e with
+      | some a, some b, some c, some d, some e => some (some ⟨a, b, c, d, e⟩)
+      | _, _, _, _, _ => none
+    | _ => none
+
+def parseBody (f : List String) : Option Body :=
+  match f with
+  | ["undecodable"] => some .undecodable
+  | ["otp", sec, code, ts, ctr, dg, al, per, skew] =>
+    match unhex sec, unhex code, ts.toInt?, ctr.toNat?, unhex dg, unhex al, per.toNat?, skew.toNat? with
+    | some sec, some code, some ts, some ctr, some dg, some al, some per, some skew =>
+      some (.otp { secret := sec, code := code, timestamp := ts, counter := ctr, digits := dg, algorithm := al, period := per, skew := skew })
+    | _, _, _, _, _, _, _, _ => none
+  | ["ocra", sec, code, raw, su, inp] =>
+    match unhex sec, unhex code, unhex raw, parseSuiteReq su, parseInputReq inp with
+    | some sec, some code, some raw, some su, some inp => some (.ocra { secret := sec, code := code, rawSuite := raw, suite := su, input := inp })
+    | _, _, _, _, _ => none
+  | ["url", ty, sec, iss, acc, per, dg, al] =>
+    match unhex ty, unhex sec, unhex iss, unhex acc, per.toNat?, unhex dg, unhex al with
+    | some ty, some sec, some iss, some acc, some per, some dg, some al =>
+      some (.url { type := ty, secret := sec, issuer := iss, account := acc, period := per, digits := dg, algorithm := al })
+    | _, _, _, _, _, _, _ => none
+  | ["suitecfg", raw] => (unhex raw).map .suiteCfg
+  | _ => none
+
+def showResp (r : Resp) : String :=
+  let p := match r.payload with
+    | .none => ""
+    | .code c ts ctr su => s!" code {hex c} {ts} {ctr} {hex su}"
+    | .valid v => s!" valid {v}"
+    | .url u => s!" url {hex u}"
+    | .secret a => s!" secret {hex a}"
+    | .suites ns => s!" suites {ns.length} {hex (ns.foldl (fun acc n => acc ++ n ++ [44]) [])}"
+    | .suiteConfig raw cfg => s!" suitecfg {hex raw} {cfg.hash}:{cfg.digits}:{cfg.challenge}:{if cfg.incC then 1 else 0}{if cfg.incQ then 1 else 0}{if cfg.incP then 1 else 0}{if cfg.incS then 1 else 0}{if cfg.incT then 1 else 0}:{cfg.pwHash}:{cfg.timeStep}"
+    | .home => " home"
+  s!"{r.status}{p}"
+
+/-- `rest <GET|POST|OTHER> <pathHex> <algorithmArgHex> <now> <body…>` -/
+def run (O : HashOracle) (f : List String) : String :=
+  match f with
+  | m :: path :: alg :: now :: body =>
+    match unhex path, unhex alg, now.toInt?, parseBody body with
+    | some path, some alg, some now, some b =>
+      let meth := if m = "GET" then Method.get else if m = "POST" then Method.post else Method.other
+      showResp (handle O meth path b alg now)
+    | _, _, _, _ => "bad-op"
+  | _ => "bad-op"
+end RestDrv
 
 def withSpec (m : String) (s : Option String) : String :=
   match s with
@@ -281,6 +349,7 @@ def step (line : String) : String :=
         | .err er => "err " ++ er.name
         | .panic => "panic")
     | _, _, _, _, _ => "bad-op"
+  | "rest" :: rest => RestDrv.run O rest
   | "urlg" :: rest => Url.Run.urlg rest
   | "urlp" :: rest => Url.Run.urlp rest
   | "std.trim" :: [s] => (match unhex s with | some s => "ok " ++ hex (Std.trimSpace s) | none => "bad-op")
